@@ -455,6 +455,9 @@ def main(tier, seed, only=None):
   units = [unit_model("actdim", "array"), unit_model("delay", "array"), unit_model("servos", "array"), unit_model("servos", 1), unit_model("actdim", "array", symtab=True), unit_model("actdim", 0), unit_model("actdim", 2), ("scalar-reject", unit_scalar_reject)]
   if tier == "thorough":
     units += [unit_model("actdim", "array", sleep=True), unit_model("delay", 1), unit_model("actdim", 1), unit_model("actdim", "array", nworld=3), unit_model("delay", "array", symtab=True, nworld=3)]
+  from checks import resetk
+
+  units.append(resetk.unit_keyframe(PID))
   if only:
     units = [u for u in units if any(o in u[0] for o in only)]
   return report.run_check(PID, units, tier, seed)
